@@ -240,7 +240,19 @@ func (m *ownModel) ruleMovedMeansGone(r *Rep, rule string) {
 				// reload of the moved block (cannot happen without a load, covered above)
 			} else {
 				use := func(ins ssa.Instruction) bool { return m.blockUse(ins, arg) != "" }
-				if bad, reach := pathTo(locOf(pc.call), use, nil, notRetained); reach {
+				// where the value is defined again (the next iteration of a loop that
+				// makes it: `blk, err := dec.wait()`) it is another block
+				var redefined func(ssa.Instruction) bool
+				if def, ok := arg.(ssa.Instruction); ok {
+					defs := map[ssa.Instruction]bool{def: true}
+					if ex, ok := arg.(*ssa.Extract); ok {
+						if t, ok := ex.Tuple.(ssa.Instruction); ok {
+							defs[t] = true
+						}
+					}
+					redefined = func(x ssa.Instruction) bool { return defs[x] }
+				}
+				if bad, reach := pathTo(locOf(pc.call), use, redefined, notRetained); reach {
 					why += fmt.Sprintf(" the block handed to the cache here is afterwards %s at %s, although the cache may have retained it: the reader and the cache both own the block, and a later cache hit returns a buffer that has been overwritten;", m.blockUse(bad, arg), c.Pos(bad.Pos()))
 				}
 			}
